@@ -70,6 +70,9 @@ theorem validState_init {n : Nat} (hn : 0 < n) : validState n (St.init n) := by
 theorem getI_eq_getElem {l : List Int} {i : Nat} (h : i < l.length) : getI l i = l[i] := by
   simp [getI, List.getD_eq_getElem?_getD, List.getElem?_eq_getElem h]
 
+theorem getI_of_le {l : List Int} {i : Nat} (h : l.length ≤ i) : getI l i = 0 := by
+  simp [getI, List.getD_eq_getElem?_getD, List.getElem?_eq_none h]
+
 theorem getI_mem {l : List Int} {i : Nat} (h : i < l.length) : getI l i ∈ l := by
   rw [getI_eq_getElem h]; exact List.getElem_mem h
 
